@@ -171,7 +171,11 @@ def cases(draw, tier):
             "stdin": draw(st.sampled_from([None, None, None, "first"])), "odd_path": odd_path,
             "input_style": draw(st.sampled_from(["positional", "-i", "--input"])),
             # an option that lacks its argument can only be the last word of the command line
-            "dangling": draw(st.sampled_from([None] * 9 + ["--gpo", "--set", "-n", "--type", "-o", "-f"]))}
+            "dangling": draw(st.sampled_from([None] * 9 + ["--gpo", "--set", "-n", "--type", "-o", "-f"])),
+            # the two remaining public calls on an msa object, between reading and aligning (library leg)
+            "lib_pre": draw(st.lists(st.sampled_from(["checkmsa 0 0", "checkmsa 0 1", "reformat 0 0 0", "reformat 0 1 0", "reformat 0 0 1", "reformat 0 1 1"]),
+                                     min_size=0, max_size=2)) if draw(st.integers(0, 2)) == 0 else [],
+            "lib_run": draw(st.sampled_from(["2 5 -1 -1 -1", "2 5 -1 -1 -1", "1 5 0 0 0", "4 5 3.5 -1 0", "16 5 -1 0.5 -1"]))}
 
 
 def strategy(tier):
@@ -252,7 +256,7 @@ def check_cli(case):
     # library leg on the same files: read -> run -> all three writers in one sanitised process (any status is fine,
     # a sanitizer report or crash is not)
     if paths:
-        lines = ["read 0 1 %s" % p for p in paths] + ["run 0 2 5 -1 -1 -1"] + \
+        lines = ["read 0 1 %s" % p for p in paths] + list(case.get("lib_pre") or []) + ["run 0 %s" % case.get("lib_run", "2 5 -1 -1 -1")] + \
                 ["write 0 %s %s" % (fmt, wd.path("." + fmt)) for fmt in ("fasta", "msf", "clu")] + ["free 0"]
         pr = runner.run_probe(lines, cpu=CPU)
         if pr.ended.bad:
@@ -270,7 +274,8 @@ def check_cli(case):
         kind = en.kind
         return engine.violation({"what": "CLI ended with %s" % kind, **en.brief(), "args": args[:12]}, classes=cl,
                                 kind="hang" if kind == "hang" else "crash")
-    if en.rc not in (0, 1):
+    if not (0 <= en.rc <= 125):
+        # any non-zero exit status is "a failure status"; values a shell reserves (126.., killed by a signal) are not
         return engine.violation({"what": "exit status %d" % en.rc, "args": args[:12], "stderr": en.err[-300:]}, classes=cl, kind="status")
     if info:
         return engine.ok(False, cl + ["info_request"], None)
@@ -320,7 +325,7 @@ def check_cli(case):
     if not diag:
         return engine.violation({"what": "failure status without any diagnostic", "args": args[:12]}, classes=cl, kind="status")
     return engine.ok(any(len(f["body"]) > 8 for f in case["files"]), cl + ["rejected"],
-                     {"args": args[:10], "files": [f["body"][:80] for f in case["files"]], "rc": 1, "diag": diag[-120:]})
+                     {"args": args[:10], "files": [f["body"][:80] for f in case["files"]], "rc": en.rc, "diag": diag[-120:]})
 
 
 # ------------------------------------------------------------------ fuzz leg
